@@ -43,7 +43,7 @@ CHECKS = {
         "level": "exploration",
         "technique": "runtime monitoring: universal wire monitor (independent spec-table parser) on every datagram sent in the union of the gateway workloads",
         "level_text": "All datagrams the gateway emits in the connect, traffic, hostile, sleep and big-payload workloads (hundreds of thousands per run) are parsed by the independent codec: decodable, direction-valid type, Length == size, size <= 8192.",
-        "level_note": "client-library datagrams are covered where a real client runs (C17/C26 worlds); DTLS framing is out of scope",
+        "level_note": "the client library's datagrams are judged in the client+gateway workload (API programs of C26); DTLS framing is out of scope",
         "design_ref": "3/C23",
     },
     "C24": {
@@ -78,7 +78,7 @@ CHECKS = {
         "level": "exploration",
         "technique": "runtime monitoring: per-connect-exchange trace oracle over enumerated and perturbed CONNECT/AUTH/WILL* orderings",
         "level_text": "Same sequence space as C07 (all orderings/omissions/repeats up to length 3, perturbed longer flows) x auth on/off x four gateway credential settings; the monitor compares the credentials of every MQTT CONNECT with the AUTH packets of the same exchange / the configured ones.",
-        "level_note": "credentials are compared byte-wise by an independent MQTT parser; AuthEnabled plumbing through ListenAndServe is exercised by C15's real-socket part only",
+        "level_note": "credentials are compared byte-wise by an independent MQTT parser; the plumbing of --auth/--mqtt-user/--mqtt-password through main and ListenAndServe is exercised by 12 runs of the built bisquitt binary on loopback (same oracle)",
         "design_ref": "3/C08",
     },
     "C09": {
@@ -103,7 +103,7 @@ CHECKS = {
             {"name": "race", "race": True, "test": "TestC11", "tiers": ["thorough"]},
         ],
         "technique": "runtime monitoring: sleep-window oracle over the wire trace (silence inside windows, exactly-once in-order delivery on wake-up), lock-step and same-instant racy injections; race detector as diagnostic in the thorough tier",
-        "level_text": "Thousands of generated multi-cycle sleep histories with broker publishes inside the windows and at the very instant of the sleep request / the waking PINGREQ (the gateway's two receive loops race; repeated many times per run). The monitor reconstructs the sleep windows from the wire and checks silence, exactly-once delivery and order.",
+        "level_text": "Thousands of generated multi-cycle sleep histories with broker publishes inside the windows and at the very instant of the sleep request / the waking PINGREQ (the gateway's two receive loops race; repeated many times per run). Exchanges the client started before falling asleep are answered late by the broker model, inside the window. The monitor reconstructs the sleep windows from the wire and checks silence, exactly-once delivery and order, and that late acknowledgements are delivered at wake-up.",
         "level_note": "orders of the racing receive loops are those the scheduler produced; race-detector reports are listed, not deciding",
         "design_ref": "3/C11",
     },
@@ -119,7 +119,7 @@ CHECKS = {
         "exhaustive": True,
         "crash_is_violation": True,
         "technique": "runtime monitoring: termination causes injected at every step of base histories (virtual time); deadline + wire-state oracle; goroutine-leak inspection of the bubble's goroutine dump at quiescence",
-        "level_text": "Each of 8 termination causes is injected at every step index of 7 base histories (about 370 cases, all run; thorough repeats them 4x for scheduler variety) and the session is then given 130 virtual seconds. The oracle checks the handler's return time against one poll interval, the closing of the broker link, the DISCONNECT notice against a client-state machine rebuilt from the wire, and - from the runtime's goroutine dump filtered by synctest bubble - that nothing of the session is left. The real dial-failure path is run on loopback.",
+        "level_text": "Each of 8 termination causes is injected at every step index of 7 base histories (about 370 cases, all run; thorough repeats them 4x for scheduler variety) and the session is then given 130 virtual seconds. The oracle checks the handler's return time against one poll interval, the closing of the broker link, the DISCONNECT notice against a client-state machine rebuilt from the wire, and - from the runtime's goroutine dump filtered by synctest bubble - that nothing of the session is left. The real dial-failure path and whole-gateway shutdown through ListenAndServe (active and sleeping UDP peers) are run on loopback; a broker that stops reading (bounded link) is one of the base histories.",
         "level_note": "goroutine identity relies on the 'synctest bubble N' tag in runtime.Stack output; a leak makes the bubble unfinishable, so the child process exits after journaling it and the driver resumes",
         "design_ref": "3/C13",
     },
@@ -140,7 +140,7 @@ CHECKS = {
         "race_deciding_files": True,
         "race_func_prefixes": ["transactions.", "client.(*sleepTransaction)", "client.newSleepTransaction"],
         "technique": "runtime monitoring: invariant probes (completion-callback counter, Err stability, callback-after-Done) over enumerated and colliding operation histories + Go race detector + crash watch",
-        "level_text": "All operation sequences up to length 4 over the six transaction operations are run on five transaction variants in virtual time, plus same-instant and real-time collisions of completion calls with timers; probes assert at-most-once completion. The same workload runs under -race, where a report inside package transactions or the client's sleep transaction (or a nil dereference, seen as a crash) decides.",
+        "level_text": "All operation sequences up to length 4 over the six transaction operations are run on five transaction variants in virtual time, plus same-instant and real-time collisions of completion calls with timers, and about 2000 histories of the client's sleep transaction through the real Client.Sleep (replies exactly at / just before timer instants, RetryDelay down to 0 in real time); probes assert at-most-once completion and no action after completion. The same workload runs under -race, where a report inside package transactions or the client's sleep transaction (or a nil dereference, seen as a crash) decides.",
         "level_note": "collision interleavings are sampled by the scheduler (16 cores, repetitions), not enumerated; race detector only sees races that occur in the run",
         "design_ref": "3/C18",
     },
